@@ -1,4 +1,5 @@
 """C05 — relayed data arrives complete, ordered and intact, or the reader is dropped"""
+from relaymain import RelayMainMode, RELAYMAIN_RULE
 from lagcommon import LagMode, LAG_RULE
 from hubcommon import HubMode
 from relaycommon import RelayMode
@@ -14,7 +15,9 @@ THEOREMS = [(f"Hub.{n}", P) for n in ["frame_is_whole_messages", "stream_integri
                                       "no_silent_skip", "evicted_only_own_backlog", "stays_member", "frames_are_fresh_slices"]] + [("Hub.run_inv", "Relay.Props.HubInv")]
 RULE = RULE + LAG_RULE
 
+RULE = RULE + RELAYMAIN_RULE
+
 
 
 def modes(tier):
-    return [HubMode("C05"), RelayMode("C05"), LagMode("C05")]
+    return [HubMode("C05"), RelayMode("C05"), LagMode("C05"), RelayMainMode("C05", 2)]
